@@ -11,15 +11,36 @@ theorem clearStream_hold (r : Resp) (w : Nat) : (clearStream r w).hold = r.hold 
   unfold clearStream; repeat' split
   all_goals rfl
 
+theorem clearStream_closed (r : Resp) (w : Nat) : (clearStream r w).closed = r.closed := by
+  unfold clearStream; repeat' split
+  all_goals rfl
+
+theorem clearStream_pending (r : Resp) (w : Nat) : (clearStream r w).pending = r.pending := by
+  unfold clearStream; repeat' split
+  all_goals rfl
+
+theorem clearStream_closeWaiting (r : Resp) (w : Nat) : (clearStream r w).closeWaiting = r.closeWaiting := by
+  unfold clearStream; repeat' split
+  all_goals rfl
+
+theorem clearList_closeWaiting (l : List (Nat × Nat)) (r : Resp) :
+    (l.foldl (fun r e => clearStream r e.2) r).closeWaiting = r.closeWaiting := by
+  induction l generalizing r with
+  | nil => rfl
+  | cons e l ih => simp only [List.foldl_cons]; rw [ih, clearStream_closeWaiting]
+
 theorem clearList_bound (l : List (Nat × Nat)) (r : Resp) :
     (l.foldl (fun r e => clearStream r e.2) r).bound = r.bound ∧
-    (l.foldl (fun r e => clearStream r e.2) r).hold = r.hold := by
+    (l.foldl (fun r e => clearStream r e.2) r).hold = r.hold ∧
+    (l.foldl (fun r e => clearStream r e.2) r).closed = r.closed ∧
+    (l.foldl (fun r e => clearStream r e.2) r).pending = r.pending := by
   induction l generalizing r with
-  | nil => exact ⟨rfl, rfl⟩
+  | nil => exact ⟨rfl, rfl, rfl, rfl⟩
   | cons e l ih =>
     simp only [List.foldl_cons]
-    rw [(ih _).1, (ih _).2, clearStream_bound, clearStream_hold]
-    exact ⟨rfl, rfl⟩
+    rw [(ih _).1, (ih _).2.1, (ih _).2.2.1, (ih _).2.2.2, clearStream_bound, clearStream_hold,
+      clearStream_closed, clearStream_pending]
+    exact ⟨rfl, rfl, rfl, rfl⟩
 
 theorem lookupBound_filter_self (l : List (Nat × Nat)) (ssrc : Nat) :
     lookupBound (l.filter (·.1 ≠ ssrc)) ssrc = none := by
@@ -33,7 +54,85 @@ theorem lookupBound_filter_self (l : List (Nat × Nat)) (ssrc : Nat) :
 
 theorem nack_unbound (r : Resp) (ssrc : Nat) (pairs : List (Nat × Nat))
     (h : lookupBound r.bound ssrc = none) : r.nack ssrc pairs = (r, []) := by
-  unfold Resp.nack; rw [h]
+  unfold Resp.nack; rw [h]; split <;> rfl
+
+theorem nack_closed (r : Resp) (ssrc : Nat) (pairs : List (Nat × Nat))
+    (h : r.closed = true) : r.nack ssrc pairs = (r, []) := by
+  unfold Resp.nack; rw [if_pos h]
+
+theorem close_closed (r : Resp) : r.close.closed = true := by
+  unfold Resp.close; rw [(clearList_bound _ _).2.2.1]
+
+theorem close_pending (r : Resp) : r.close.pending = r.pending := by
+  unfold Resp.close; rw [(clearList_bound _ _).2.2.2]
+
+theorem bind_closed (r : Resp) (a b c : Nat) (fb : Bool) : (r.bind a b c fb).closed = r.closed := by
+  unfold Resp.bind; split <;> rfl
+
+theorem write_closed (r : Resp) (w : Nat) (hd : Hdr) (pl : List Nat) : (r.write w hd pl).1.closed = r.closed := by
+  unfold Resp.write
+  repeat' split
+  all_goals rfl
+
+theorem unbind_closed (r : Resp) (s : Nat) : (r.unbind s).closed = r.closed := by
+  unfold Resp.unbind
+  split
+  · rfl
+  · rw [clearStream_closed]
+
+theorem close_closeWaiting (r : Resp) : r.close.closeWaiting = (r.closeWaiting || r.pending.isSome) := by
+  unfold Resp.close; rw [clearList_closeWaiting]
+
+theorem bind_pending (r : Resp) (a b c : Nat) (fb : Bool) : (r.bind a b c fb).pending = r.pending := by
+  unfold Resp.bind; split <;> rfl
+
+theorem write_pending (r : Resp) (w : Nat) (hd : Hdr) (pl : List Nat) : (r.write w hd pl).1.pending = r.pending := by
+  unfold Resp.write
+  repeat' split
+  all_goals rfl
+
+theorem unbind_pending (r : Resp) (s : Nat) : (r.unbind s).pending = r.pending := by
+  unfold Resp.unbind
+  split
+  · rfl
+  · rw [clearStream_pending]
+
+theorem applyOp_pending (r : Resp) (op : Op) : (applyOp r op).pending = r.pending := by
+  cases op with
+  | bind a b c fb => simp only [applyOp, bind_pending]
+  | write w hd pl => simp only [applyOp, write_pending]
+  | unbind s => simp only [applyOp, unbind_pending]
+  | close => exact close_pending r
+
+theorem runOps_pending (r : Resp) (sp : Specs) (ops : List Op) : (runOps r sp ops).1.pending = r.pending := by
+  induction ops generalizing r sp with
+  | nil => rfl
+  | cons op ops ih => simp only [runOps]; rw [ih, applyOp_pending]
+
+theorem resume_closed (r : Resp) : r.resume.1.closed = r.closed := by
+  unfold Resp.resume; split <;> rfl
+
+theorem resume_pending (r : Resp) : r.resume.1.pending = none := by
+  unfold Resp.resume; split
+  · rename_i h; simp only [h]
+  · rfl
+
+theorem resume_idle (r : Resp) (h : r.pending = none) : r.resume.2 = [] := by
+  unfold Resp.resume; rw [h]
+
+/-- every operation keeps a closed responder closed. -/
+theorem applyOp_closed (r : Resp) (op : Op) (h : r.closed = true) : (applyOp r op).closed = true := by
+  cases op with
+  | bind a b c fb => simp only [applyOp, bind_closed]; exact h
+  | write w hd pl => simp only [applyOp, write_closed]; exact h
+  | unbind s => simp only [applyOp, unbind_closed]; exact h
+  | close => exact close_closed r
+
+theorem runOps_closed (r : Resp) (sp : Specs) (ops : List Op) (h : r.closed = true) :
+    (runOps r sp ops).1.closed = true := by
+  induction ops generalizing r sp with
+  | nil => exact h
+  | cons op ops ih => simp only [runOps]; exact ih _ _ (applyOp_closed r op h)
 
 theorem getLastD_append_ne {a b : List Nat} (hb : b ≠ []) : (a ++ b).getLastD 0 = b.getLastD 0 := by
   cases b with
